@@ -74,7 +74,15 @@ def run_units(units, seed, twin=False):
     fam_items = {}
 
     def one(u):
-        return runner.verify_unit(u, seed=seed)
+        try:
+            return runner.verify_unit(u, seed=seed)
+        except Undecided as e:
+            if e.reason != "rlimit":
+                raise
+            # a resource-out says nothing about the code: one more attempt with twice the budget (same seed) before giving up
+            from assemble import load_unit
+            base = load_unit(u).get("rlimit") or 30
+            return runner.verify_unit(u, seed=seed, rlimit=2 * base)
 
     with cf.ThreadPoolExecutor(max_workers=min(16, max(1, len(units)))) as ex:
         futs = {ex.submit(one, u): u for u in units}
